@@ -6,8 +6,8 @@
     rogw/tranp/syntax/node/query.py:221-230               Nodes.source_map = EntryCache.by(full_path).source_map
     rogw/tranp/syntax/node/node.py:151-154                Node.source_map
     rogw/tranp/syntax/ast/finder.py                       full_pathfy (paths of the cache, as in Model/AstPath.lean)
-    rogw/tranp/view/error_render.py:59-73                 ErrorRender.__build_quotation (exists check, minus-one shift)
-    rogw/tranp/view/error_render.py:84-144                Quotation (__load_line, __cause_range, build, __build_line_mark)
+    rogw/tranp/view/error_render.py:56-77                 ErrorRender.__build_quotation (exists check, no-position guard, minus-one shift)
+    rogw/tranp/view/error_render.py:88-148                Quotation (__load_line, __cause_range, build, __build_line_mark)
     rogw/tranp/implements/syntax/tranp/syntax.py:352-406  ErrorCollector (_quotation_lines, _cause_token_range, _cause_line,
                                                           _cause_line_mark); `_progress` (uses repr()) is not modelled
 
@@ -77,7 +77,7 @@ def dec1 : Pos → Except Err Int
   | some n => .ok (n - 1)
   | none => .error .typeError
 
-/-- error_render.py:66-72 -/
+/-- error_render.py:70-76 -/
 def shift (sm : SM) : Except Err Span := do
   let a ← dec1 sm.bl
   let b ← dec1 sm.bc
@@ -105,12 +105,12 @@ def pyIndex {α : Type} (xs : List α) (i : Int) : Except Err α :=
 def dropNl (s : Str) : Str := s.filter (fun c => c != '\n')
 def tabToSpace (s : Str) : Str := s.map (fun c => if c = '\t' then ' ' else c)
 
-/-- `Quotation.__load_line` (error_render.py:100-111): `.replace('\n', '').replace('\t', ' ')` -/
+/-- `Quotation.__load_line` (error_render.py:103-114): `.replace('\n', '').replace('\t', ' ')` -/
 def loadLine (content : Str) (lineNo : Int) : Except Err Str := do
   let l ← pyIndex (readlines content) lineNo
   pure (tabToSpace (dropNl l))
 
-/-- `Quotation.__cause_range` (error_render.py:113-126) -/
+/-- `Quotation.__cause_range` (error_render.py:116-129) -/
 def causeRange (causeLine : Str) (s : Span) : Int × Int :=
   let diff := s.ec - s.bc
   (s.bc, if s.bl = s.el then s.bc + diff else (causeLine.length : Int))
@@ -118,7 +118,7 @@ def causeRange (causeLine : Str) (s : Span) : Int × Int :=
 /-- `c * n` for a one-character string (empty for n ≤ 0) -/
 def pyRepeat (c : Char) (n : Int) : Str := List.replicate n.toNat c
 
-/-- `__build_line_mark` (error_render.py:138-144, syntax.py:399-406) -/
+/-- `__build_line_mark` (error_render.py:142-148, syntax.py:399-406) -/
 def lineMark (r : Int × Int) : Str :=
   pyRepeat ' ' r.1 ++ pyRepeat '^' (max 1 (r.2 - r.1))
 
@@ -129,7 +129,7 @@ def sMarkIndent : Str := [' ', ' ', ' ', ' ', ' ', ' ', ' ', ' ']
 def sCollQuote : Str := [')', ' ', '>', '>', '>', ' ']
 def sCollIndent : Str := [' ', ' ', ' ', ' ', ' ', ' ']
 
-/-- `Quotation(filepath, source_map).build()` (error_render.py:87-98, 128-137) -/
+/-- `Quotation(filepath, source_map).build()` (error_render.py:91-101, 131-140) -/
 def quotationBuild (filepath content : Str) (s : Span) : Except Err (List Str) := do
   let causeLine ← loadLine content s.bl
   let range := causeRange causeLine s
@@ -139,14 +139,26 @@ def quotationBuild (filepath content : Str) (s : Span) : Except Err (List Str) :
     sQuote ++ causeLine,
     sMarkIndent ++ lineMark range ]
 
-/-- `ErrorRender.__build_quotation` for an exception whose first argument is a node (error_render.py:59-73):
-    nothing when the module's file does not exist, otherwise the quotation of the node's shifted span. -/
+/-- `x < 1` on a position: `None < 1` raises TypeError -/
+def lt1 : Pos → Except Err Bool
+  | some n => .ok (decide (n < 1))
+  | none => .error .typeError
+
+/-- `ErrorRender.__build_quotation` for an exception whose first argument is a node (error_render.py:56-77):
+    nothing when the module's file does not exist, nothing for a node without a source position (begin line or begin
+    column below 1, `or` short-circuits — fix dc3e568), otherwise the quotation of the node's shifted span. -/
 def buildQuotation (fileExists : Bool) (filepath content : Str) (sm : Except Err SM) : Except Err (List Str) :=
   if !fileExists then .ok []
   else do
     let m ← sm
-    let s ← shift m
-    quotationBuild filepath content s
+    let noLine ← lt1 m.bl
+    if noLine then pure []
+    else do
+      let noCol ← lt1 m.bc
+      if noCol then pure []
+      else do
+        let s ← shift m
+        quotationBuild filepath content s
 
 /-- the quotation printed for the node at `path` -/
 def nodeQuotationIn (cache : List (Str × View)) (path : Str) (fileExists : Bool) (filepath content : Str) : Except Err (List Str) :=
